@@ -42,7 +42,8 @@ class CallMixin:
                 el, view = iter_elem(t)
                 return self.as_int(i, ti, lambda iv: self.bind("Py.index {} {}".format(view(c), iv), el, k, "x"))
             if isinstance(t, TDict):
-                return self.bind("Py.dictGet {} {}".format(c, coerce(i, ti, t.k)), t.v, k, "x")
+                d, key = self.dict_probe(c, t, i, ti)
+                return self.bind("Py.dictGet {} {}".format(d, key), t.v, k, "x")
             if isinstance(t, TRange):
                 return self.as_int(i, ti, lambda iv: self.bind("Py.Range.get {} {}".format(c, iv), INT, k, "x"))
             if isinstance(t, TObj):
